@@ -5,6 +5,7 @@
   Declaration-side types are `TyExpr`s in which
     `adt (1000+k) _`  is the k-th type parameter,
     `adt (2000+k) _`  is the associated type `P_k::A` (the parameter is bounded by a helper trait),
+    `adt (2500+k) _`  is the associated type `P_k::S`, named like the declared type itself (k < 500),
     `adt 3000 _`      is a reference to the declared type itself (written with its bare identifier),
     `adt 4000 [x]`    is `Wrapper<x>`, a helper generic struct deriving TypeInfo (has type info iff x has),
     `adt 4001 [x]`    is `NoInfoW<x>`, a helper generic struct WITHOUT a TypeInfo impl,
@@ -92,7 +93,7 @@ def subst (inst : List TyExpr) : TyExpr → TyExpr
   | .adt n a =>
     if 1000 ≤ n && n < 2000 then inst[n - 1000]?.getD .tuple0
     else if 2000 ≤ n && n < 3000 then
-      (match inst[n - 2000]? with
+      (match inst[(n - 2000) % 500]? with
        | some (.adt 4003 _) => .uint .w8
        | some (.adt 4004 _) => .adt 4002 .tuple0
        | _ => .adt 4002 .tuple0)
